@@ -28,7 +28,7 @@ PARAMS = {
     ("c17", "quick"):    dict(MAXDIM=3, NVAR=2, STRIDE=1, MAXHIST=5),
     ("c17", "thorough"): dict(MAXDIM=4, NVAR=8, STRIDE=1, MAXHIST=5),
     ("c20", "quick"):    dict(MAXDIM=3, NVAR=1, STRIDE=131, MAXHIST=5),
-    ("c20", "thorough"): dict(MAXDIM=3, NVAR=1, STRIDE=5, MAXHIST=5),
+    ("c20", "thorough"): dict(MAXDIM=3, NVAR=1, STRIDE=11, MAXHIST=5),
     # calls out of order, refused / unclassified standards, partial S: for
     # the aggregate C03 / C11 checks (issues carry C03 and C11 only)
     ("hostile", "quick"):    dict(MAXDIM=3, NVAR=1, STRIDE=1, MAXHIST=5),
